@@ -7,7 +7,6 @@ open Primaite Primaite.Obs
 /-! Line-protocol driver for the observation model (C02 and C09).
 
     cfg <Obs tokens>        build the observation object            → ok
-    capture 0|1             class attribute NICObservation.capture_nmne → ok
     space                   → the declared space
     default                 → default_observation
     obs <State tokens>      → `<contained 0|1> <value>`; the object then advances (`next`)
@@ -366,7 +365,6 @@ partial def showSpace : Space → String
 
 structure St where
   o : Obs := .null
-  capture : Bool := false
 
 def run {α} (p : P α) (ws : List String) : Option α :=
   match p ws with
@@ -381,26 +379,22 @@ def step (s : St) : List String → St × String
     match run pObs ws with
     | some o => ({ s with o := o }, "ok")
     | none => (s, "bad-op")
-  | ["capture", b] =>
-    match parseBool b with
-    | some b => ({ s with capture := b }, "ok")
-    | none => (s, "bad-op")
   | ["space"] => (s, showSpace s.o.space)
   | ["default"] => (s, report s.o s.o.default)
   | "obs" :: ws =>
     match run pState ws with
-    | some st => ({ s with o := s.o.next s.capture st }, report s.o (s.o.val s.capture st))
+    | some st => ({ s with o := s.o.next st }, report s.o (s.o.val st))
     | none => (s, "bad-op")
   | "peek" :: ws =>
     match run pState ws with
-    | some st => (s, report s.o (s.o.val s.capture st))
+    | some st => (s, report s.o (s.o.val st))
     | none => (s, "bad-op")
   | "spec" :: ws =>
     match run pTruth ws with
     | some t =>
       let st := describe t
-      ({ s with o := s.o.next s.capture st },
-       showVal (s.o.spec s.capture t) ++ " | " ++ report s.o (s.o.val s.capture st))
+      ({ s with o := s.o.next st },
+       showVal (s.o.spec t) ++ " | " ++ report s.o (s.o.val st))
     | none => (s, "bad-op")
   | "rawcfg" :: ws =>
     match run (do let t ← pThrCfg; let r ← pRawObs; pure (t, r)) ws with
@@ -415,7 +409,7 @@ def step (s : St) : List String → St × String
   | "flat" :: ws =>
     match run pState ws with
     | some st =>
-      match flatten s.o.space (s.o.val s.capture st) with
+      match flatten s.o.space (s.o.val st) with
       | some x => (s, toString x.length ++ " " ++ toString (x.foldl (· + ·) 0))
       | none => (s, "raised")
     | none => (s, "bad-op")
